@@ -395,7 +395,7 @@ def interface_history(g, rng, queries=()):
     return cmds
 
 def random_history(g, rng, n_assert=5, p_named=0.0, queries=(), max_depth=3, define_funs=True,
-                   final_check=True, n_atoms=5, fdepth=2, min_checks=1):
+                   final_check=True, n_atoms=5, fdepth=2, min_checks=1, p_define=None):
     """body of an incremental script: asserts, push/pop, check-sat and queries after each check"""
     tb = g.tb
     cmds = []
@@ -405,14 +405,14 @@ def random_history(g, rng, n_assert=5, p_named=0.0, queries=(), max_depth=3, def
     checks = 0
     for b in g.box_asserts():
         cmds.append({"c": "assert", "t": b, "nm": "", "inner": []})
-    if define_funs and g.num and not g.dl and rng.random() < 0.35:
+    if define_funs and g.num and not g.dl and rng.random() < (p_define or 0.35):
         a = tb.var("a", g.num)
         body = tb.app("+", [tb.app("*", [tb.num(2, g.num), a]), tb.num(1, g.num)])
         cmds.append({"c": "define", "nm": "dbl", "params": [("a", g.num)], "ret": g.num, "b": body})
         g.sig.defs["dbl"] = ([("a", g.num)], body, g.num)
         v = rng.choice(g.nums)
         atoms.append(tb.app(rng.choice(["<=", ">=", "="]), [tb.uf("dbl", [v], g.num), g.const(g.num)]))
-    if define_funs and rng.random() < 0.25 and len(g.bools) >= 2:
+    if define_funs and rng.random() < (p_define or 0.25) and len(g.bools) >= 2:
         body = tb.app("xor", [g.bools[0], g.bools[1]])
         cmds.append({"c": "define", "nm": "bx", "params": [], "ret": BOOL, "b": body})
         g.sig.defs["bx"] = ([], body, BOOL)
